@@ -4,7 +4,7 @@ import json, os, sys, subprocess
 ROOT = os.path.dirname(os.path.dirname(os.path.abspath(__file__)))
 sys.path.insert(0, os.path.join(ROOT, "tools"))
 from proptable import PROPS
-from manifest_meta import META, PENDING
+from manifest_meta import META, PENDING, TB
 
 hooks = subprocess.run(["git", "-C", "/repo", "log", "--format=%H %s"], capture_output=True, text=True).stdout
 hook_commits = [l.split()[0] for l in hooks.splitlines() if "verif hooks" in l]
@@ -12,6 +12,7 @@ hook_commits = [l.split()[0] for l in hooks.splitlines() if "verif hooks" in l]
 checks = []
 for pid in sorted(PROPS):
     m = META[pid]
+    has_thm = os.path.exists(os.path.join(ROOT, "coq", "Properties", pid + ".v"))
     checks.append(dict(
         property_id=pid,
         quick_cmd="./check %s quick" % pid,
@@ -19,8 +20,10 @@ for pid in sorted(PROPS):
         evidence_file="evidence/%s.json" % pid,
         replay_cmd_template="./check %s --replay {path}" % pid,
         engine="coq-model+correspondence",
-        level_claimed=dict(category="proof", text=m["text"], design_ref=m["design_ref"]),
-        level_note=m["note"],
+        level_claimed=dict(category="proof" if has_thm else "exploration",
+                           text=(m["thm"] + " " if has_thm else "No theorem is registered for this property yet (proofs in progress); the check is the run-time part only. ") + m["tie"],
+                           design_ref="DESIGN.md 6 " + pid),
+        level_note=TB + m["note"],
         technique=m["technique"],
     ))
 man = dict(
